@@ -3,6 +3,7 @@
    regenerated into Gen/ProtoConsts.v. *)
 From SG Require Import Base.Prelude Base.Kinds Gen.ProtoConsts Spec.E4E37Frames Model.Secs2 Model.Frames Model.SecsILine Proofs.FramesProofs Proofs.LineProofs.
 From Coq Require Import Lia.
+From SG Require Import Gen.SecsILine.
 Open Scope N_scope.
 
 (* however the line byte stream is chunked, the receiving side does the same *)
@@ -69,3 +70,16 @@ Example C17_example :
   let h := {| s_system := 7; s_device := 1; s_stream := 1; s_function := 1; s_block := 1; s_r := false; s_w := true; s_e := true |} in
   block_ok h [1; 2; 3] /\ length (enc_block h [1; 2; 3]) = 16%nat.
 Proof. split; [|reflexivity]. repeat split; cbn; try lia. repeat constructor. Qed.
+
+(* The line protocol's rounds as the code has them.  One round of SecsIProtocol._process_send_queue and of _process_received_data is read statement
+   by statement on every run (harness/gen_secsiline.py -> Gen/SecsILine.v) and emitted as the sequence of steps it is.  The byte machine of
+   Model/SecsILine.v is written for exactly these sequences, and the orders that matter are orders of the regenerated lists: a block is taken from
+   the queue and put on the line only behind the EOT test (D50: `await_eot`), it is resolved by comparing the answer with ACK; the receiver answers
+   the announcement with EOT, takes length + 3 bytes, answers a block that does not decode with NAK and hands nothing over, and sends ACK only
+   after the block was handed over.  (This is an obligation on the shape of the two rounds, not an equality with the byte machine: the
+   machine itself is tied to the code by the correspondence run.) *)
+Theorem C17_line_rounds_as_translated :
+  line_send_ops = [SSendENQ; SPeekAnswer; SYieldToPeerIfHost; STakeAnswer; SAgainUnlessEOT; STakeBlock; SSendBlock; SWaitResult; SResolveByACK] /\
+  line_recv_ops = [RTakeByte; RSendEOT; RPeekLength; RTakeBlock 3; RDecode; RNakAndStopIfBad; RHandOver; RSendACK].
+Proof. split; reflexivity. Qed.
+Print Assumptions C17_line_rounds_as_translated.
